@@ -38,7 +38,7 @@ Section Channel.
     | PAdded st =>
         exists g, mc x = mkm p Signing (stx p st (Some (sigof p st)) (Some g)) c /\ succ c st
                   /\ state_encodable st = true /\ sig_ok (other p) st g /\ In st (flog x)
-    | PFail st r => exists o1, mc x = mkm p Signing (stx p st o1 None) c /\ st_final (tx_st c) = false
+    | PFail st r => r <> RSuccess /\ exists o1, mc x = mkm p Signing (stx p st o1 None) c /\ st_final (tx_st c) = false
     | RStaged st g => mc x = mkm p Signing (stx p st None None) c /\ succ c st /\ sig_ok (other p) st g
     | RAdded st => exists g, mc x = mkm p Signing (stx p st None (Some g)) c /\ succ c st /\ sig_ok (other p) st g
     | RSigned st g' =>
@@ -386,7 +386,7 @@ Section Channel.
       + rewrite C. reflexivity.
       + rewrite C. apply rview_same. reflexivity.
       + exists c. split; [exact F|]. split; [exact V|]. split; [exact Hin|].
-        unfold LIc. cbn [ctl mc]. exists None. split; [reflexivity|]. apply (propok_succ p c s0 PO).
+        unfold LIc. cbn [ctl mc]. split; [discriminate|]. exists None. split; [reflexivity|]. apply (propok_succ p c s0 PO).
   Qed.
 
   (* ---------- discard ---------- *)
@@ -394,7 +394,7 @@ Section Channel.
   Proof.
     intros G H. unfold lstep in H. cbn [label_party] in H.
     destruct (ctl (getp s p)) eqn:C; try discriminate H.
-    - li_open G p c F V Hin L C. destruct L as (o1 & M & Fin). rewrite M in H.
+    - li_open G p c F V Hin L C. destruct L as (_ & o1 & M & Fin). rewrite M in H.
       rewrite op_discard in H. cbn [fst] in H. injection H as <-.
       apply GI_finish. apply frame_upd; auto.
       + rewrite M. reflexivity.
@@ -777,7 +777,7 @@ Section Channel.
     { apply (eff_other s s' p Ho). rewrite Hn, DQ'. reflexivity. }
     apply (GI_intro s s' p G Ho).
     - rewrite Hp. exists c. split; [exact F|]. split; [exact V|]. split; [exact Hin|].
-      unfold LIc. cbn [ctl mc]. eexists. split; [exact M|]. apply (propok_succ p c s0 PO).
+      unfold LIc. cbn [ctl mc]. split; [discriminate|]. eexists. split; [exact M|]. apply (propok_succ p c s0 PO).
     - unfold Dir. rewrite Hp, Ho, Hn, DP'. cbn [ctl]. auto.
     - apply (dir_other_rview s s' p Ho); [rewrite Hn; exact DQ'| | |apply (gi_dir s G)].
       + rewrite Hp, C. reflexivity.
